@@ -646,7 +646,16 @@ WellFormedRule(g, ru) ==
           /\ e.k = "alt" => ~AnyRl(g, e.es, 1, {})
           /\ e.k \in {"star", "plus", "opt"} => ~MayRl(g, e.e, {})
           /\ e.k \in {"star", "plus"} => \A x \in SubExprs(e.e) : ~(x.k = "asg" /\ x.op = "?=")
-          /\ e.k = "unord" => Len(e.es) >= 2 /\ \A i \in 1..Len(e.es) : ~e.es[i].sup
+          \* an element of an unordered group either always yields a result or is a plain optional part
+          \* (a result-less success that consumed input, e.g. a suppressed match, is not defined for groups)
+          /\ e.k = "unord" =>
+                /\ Len(e.es) >= 2
+                /\ \A i \in 1..Len(e.es) :
+                      LET x == e.es[i] IN
+                      /\ ~x.sup
+                      /\ \/ ~MayRl(g, x, {})
+                         \/ (x.k \in {"opt", "star"} /\ ~MayRl(g, x.e, {}))
+                         \/ (x.k = "asg" /\ x.op \in {"?=", "*="})
           /\ e.k = "asg" => ~MayRl(g, e.rhs, {})
           /\ e.k \in {"and", "not"} => \A x \in SubExprs(e.e) : x.k # "asg"
           /\ e.k = "ref" => e.name \in BaseNames \/ HasRule(g, e.name)
@@ -680,7 +689,17 @@ WellFormed(g) ==
   /\ \A i \in 1..Len(g.rules) : AbstractAltsPure(g, g.rules[i])
   /\ \A i, j \in 1..Len(g.rules) : g.rules[i].name = g.rules[j].name => i = j
   /\ ~LeftRecursive(g)
-  /\ HasRule(g, "Comment") => LET c == Rule(g, "Comment").body IN c.k = "re" /\ ~c.sup /\ ~(c.min = 0 /\ c.pre = <<>> /\ c.post = <<>>)
+  \* the Comment rule: a regex, a reference to a rule that is a regex, or a choice of those; never matching empty
+  /\ HasRule(g, "Comment") =>
+       LET CommentAtom(c) == \/ (c.k = "re" /\ ~c.sup /\ ~(c.min = 0 /\ c.pre = <<>> /\ c.post = <<>>))
+                             \/ (c.k = "ref" /\ ~c.sup /\ HasRule(g, c.name) /\ c.name # "Comment"
+                                   /\ LET d == Rule(g, c.name) IN
+                                      d.body.k = "re" /\ ~d.body.sup /\ d.skipws = "inherit" /\ d.ws = <<>>
+                                      /\ ~(d.body.min = 0 /\ d.body.pre = <<>> /\ d.body.post = <<>>))
+           c == Rule(g, "Comment")
+       IN /\ c.skipws = "inherit" /\ c.ws = <<>>
+          /\ \/ CommentAtom(c.body)
+             \/ (c.body.k = "alt" /\ ~c.body.sup /\ \A i \in 1..Len(c.body.es) : CommentAtom(c.body.es[i]))
 
 ----------------------------------------------------------------------------
 Ctx0(E) == [skipws |-> E.cfg.skipws, ws |-> IF E.cfg.ws = <<>> THEN DefaultWs ELSE SeqSet(E.cfg.ws),
